@@ -196,6 +196,7 @@ static long n_ooo[2], n_dup[2], n_garbage[2];
 static usec_t next_offer[2] = { INF, INF };
 static int offer_int_ms[2] = { 200, 200 };
 static int offer_size[2] = { 600, 600 };
+static int offer_big[2] = { 0, 0 }, offer_big_every[2] = { 0, 0 };	/* every Nth packet: a large compressible one */
 static double offer_start[2] = { 0.5, 0.5 }, offer_stop[2] = { 1e9, 1e9 };
 static uint32_t prng = 777;
 
@@ -203,8 +204,14 @@ static void offer_packet(int side)
 {
 	int id = npk[side]++;
 	struct pkt *p = &pk[side][id];
-	int len = offer_size[side], i;
-	unsigned char *b = calloc(1, len);
+	int len = offer_size[side], i, big = 0;
+	unsigned char *b;
+
+	if (offer_big_every[side] > 0 && id % offer_big_every[side] == offer_big_every[side] - 1) {
+		len = offer_big[side];
+		big = 1;
+	}
+	b = calloc(1, len);
 
 	/* 4 byte tun header + IPv4 header + id + incompressible filler */
 	b[2] = 0x08; b[3] = 0x00;
@@ -215,6 +222,11 @@ static void offer_packet(int side)
 	else             { b[16]=10; b[17]=0; b[18]=0; b[19]=1;  b[20]=10; b[21]=0; b[22]=0; b[23]=2; }
 	b[24] = id >> 24; b[25] = id >> 16; b[26] = id >> 8; b[27] = id;
 	for (i = 28; i < len; i++) {
+		if (big && i >= 64) {
+			/* repeating (compressible) filler, different for every packet and position within the period */
+			b[i] = b[28 + (i - 28) % 36] ^ (unsigned char)(i / 36 % 3);
+			continue;
+		}
 		prng = prng * 1103515245u + 12345u;
 		b[i] = prng >> 16;
 	}
@@ -239,9 +251,10 @@ ssize_t read_tun(int fd, char *buf, size_t len)
 	tunq_len[side]--;
 	p = &pk[side][id];
 	p->accepted = 1; p->t_accept = now;
-	memcpy(buf, p->data, p->len);
+	/* like a read() on the tun device: what does not fit the caller's buffer is lost */
+	memcpy(buf, p->data, (size_t)p->len < len ? (size_t)p->len : len);
 	tr("TUN %s read_tun  -> packet #%d (%d bytes)", side == CLI ? "client" : "server", id, p->len);
-	return p->len;
+	return (size_t)p->len < len ? p->len : (int)len;
 }
 
 int write_tun(int fd, char *data, size_t len)
@@ -575,6 +588,8 @@ int main(int argc, char **argv)
 		else if (ARG("--srv-int")) offer_int_ms[SRV] = atoi(argv[++i]);
 		else if (ARG("--cli-size")) offer_size[CLI] = atoi(argv[++i]);
 		else if (ARG("--srv-size")) offer_size[SRV] = atoi(argv[++i]);
+		else if (ARG("--cli-big")) { offer_big[CLI] = atoi(argv[++i]); offer_big_every[CLI] = 5; }
+		else if (ARG("--srv-big")) { offer_big[SRV] = atoi(argv[++i]); offer_big_every[SRV] = 5; }
 		else if (ARG("--cli-start")) offer_start[CLI] = atof(argv[++i]);
 		else if (ARG("--srv-start")) offer_start[SRV] = atof(argv[++i]);
 		else if (ARG("--cli-stop")) offer_stop[CLI] = atof(argv[++i]);
